@@ -45,23 +45,29 @@ impl Projector {
                     blocks.extend(self.with(self.header_level + 1).project_node(child));
                 }
             }
+            // an empty quote or list has nothing to render: emit no block for it
             Node::Quote() => {
                 if let Some(child) = iter.child() {
-                    blocks.push(GraphBlock::BlockQuote(self.with(0).project_node(child)));
+                    let quoted = self.with(0).project_node(child);
+                    if !quoted.is_empty() {
+                        blocks.push(GraphBlock::BlockQuote(quoted));
+                    }
                 }
             }
             Node::BulletList() => {
                 if let Some(child) = iter.child() {
-                    blocks.push(GraphBlock::BulletList(
-                        self.with(0).project_list_item(child),
-                    ));
+                    let items = self.with(0).project_list_item(child);
+                    if !items.is_empty() {
+                        blocks.push(GraphBlock::BulletList(items));
+                    }
                 }
             }
             Node::OrderedList() => {
                 if let Some(child) = iter.child() {
-                    blocks.push(GraphBlock::OrderedList(
-                        self.with(0).project_list_item(child),
-                    ));
+                    let items = self.with(0).project_list_item(child);
+                    if !items.is_empty() {
+                        blocks.push(GraphBlock::OrderedList(items));
+                    }
                 }
             }
             Node::Leaf(_) => {
